@@ -92,6 +92,8 @@ pub struct Menu {
     pub tcp_einprogress: bool,
     pub tcp_ealready: bool,
     pub tcp_refused: bool,
+    /// blocking-mode descriptors put the caller to sleep (witnessed); off: every descriptor is treated as non-blocking
+    pub blocking_sleeps: bool,
 }
 
 impl Menu {
@@ -106,6 +108,7 @@ impl Menu {
             tcp_einprogress: true,
             tcp_ealready: true,
             tcp_refused: true,
+            blocking_sleeps: true,
         }
     }
 }
@@ -151,6 +154,14 @@ pub enum Ev {
     Note(&'static str),
 }
 
+#[derive(Clone, Debug)]
+pub struct Stuck {
+    pub in_kernel: bool,
+    pub nr: i64,
+    pub op: String,
+    pub must_return: bool,
+}
+
 pub struct World {
     pub fam: Fam,
     pub cap: usize,
@@ -163,7 +174,17 @@ pub struct World {
     pub menu: Menu,
     pub ncalls: usize,
     pub horizon_hit: bool,
-    pub deadlock: bool,
+    /// O_NONBLOCK per model descriptor (from socket()/accept4() flags, fcntl F_SETFL)
+    pub nb: Vec<bool>,
+    /// the application is stuck for ever: in a blocking-mode call sleeping in the kernel, or in a ppoll without time-out
+    pub stuck: Option<Stuck>,
+    /// once stuck the execution is wound down: every further call answers EBADF
+    pub halted: bool,
+    /// blocking-mode calls that had to sleep in the kernel until the peer acted
+    pub kernel_sleeps: u32,
+    /// which tiny-std operation the application is executing, and whether its oracle says it must return
+    pub cur_op: String,
+    pub cur_must_return: bool,
     pub ppolls: u32,
     pub blocking_ppolls: u32,
     pub eagains: u32,
@@ -204,7 +225,12 @@ impl World {
             menu,
             ncalls: 0,
             horizon_hit: false,
-            deadlock: false,
+            nb: Vec::with_capacity(4),
+            stuck: None,
+            halted: false,
+            kernel_sleeps: 0,
+            cur_op: String::new(),
+            cur_must_return: true,
             ppolls: 0,
             blocking_ppolls: 0,
             eagains: 0,
@@ -243,12 +269,57 @@ impl World {
         }
     }
 
+    /// O_NONBLOCK state of a model descriptor
+    pub fn nonblock_of(&self, fd: i32) -> Option<bool> {
+        self.sock_idx(fd).map(|i| self.nb[i])
+    }
+
+    /// the peer acts now (used by scenario set-up, outside the enumeration)
+    pub fn peer_now(&mut self, a: PAct) {
+        self.do_peer(a);
+    }
+
+    pub fn set_op(&mut self, op: &str, must_return: bool) {
+        self.cur_op.clear();
+        self.cur_op.push_str(op);
+        self.cur_must_return = must_return;
+    }
+
+    fn get_stuck(&mut self, in_kernel: bool, nr: i64) {
+        self.stuck = Some(Stuck { in_kernel, nr, op: self.cur_op.clone(), must_return: self.cur_must_return });
+        self.halted = true;
+        self.ev.push(Ev::Note(if in_kernel {
+            "blocking-mode descriptor: the call sleeps in the kernel and nothing the peer will do wakes it"
+        } else {
+            "application waits in ppoll for readiness that can never come"
+        }));
+    }
+
+    /// A call on a blocking-mode descriptor cannot make progress: the kernel puts the caller to
+    /// sleep; the peer performs one of its remaining actions (free choice).  false: nothing left
+    /// that could wake it — the call sleeps for ever.
+    fn kernel_wait(&mut self, nr: i64) -> bool {
+        self.wrote_here = false;
+        self.read_here = false;
+        self.peer_actions();
+        let n = self.scratch.len();
+        if n == 0 {
+            self.get_stuck(true, nr);
+            return false;
+        }
+        let c = self.choose(n, 0);
+        let a = self.scratch[c];
+        self.do_peer(a);
+        true
+    }
+
     pub fn sock_of(&self, fd: i32) -> Option<&Sock> {
         self.sock_idx(fd).map(|i| &self.socks[i])
     }
 
-    fn new_sock(&mut self, s: Sock) -> i32 {
+    fn new_sock(&mut self, s: Sock, nonblock: bool) -> i32 {
         self.socks.push(s);
+        self.nb.push(nonblock || !self.menu.blocking_sleeps);
         FD_BASE + (self.socks.len() as i32 - 1)
     }
 
@@ -264,6 +335,10 @@ impl World {
         });
         self.peer.data_conn = Some(id);
         id
+    }
+
+    pub fn listener_fd(&self) -> Option<i32> {
+        self.app_listener().map(|i| FD_BASE + i as i32)
     }
 
     fn app_listener(&self) -> Option<usize> {
@@ -435,9 +510,21 @@ impl World {
             return Decision::Force(neg(libc::EBADF));
         }
         let fd = a[0] as i32;
+        if self.halted {
+            let r = if nr == libc::SYS_close {
+                if let Some(i) = self.sock_idx(fd) {
+                    self.socks[i] = Sock::Closed;
+                }
+                0
+            } else {
+                neg(libc::EBADF)
+            };
+            return Decision::Force(r);
+        }
         let ret: i64 = match nr {
             libc::SYS_socket => {
-                let fd = self.new_sock(Sock::Fresh { eagain_given: false });
+                let nonblock = a[1] & libc::SOCK_NONBLOCK as u64 != 0;
+                let fd = self.new_sock(Sock::Fresh { eagain_given: false }, nonblock);
                 self.ev.push(Ev::Call { nr, fd, a: a[0] as i64, ret: fd as i64 });
                 return Decision::Force(fd as i64);
             }
@@ -455,6 +542,18 @@ impl World {
                     }
                     0
                 }
+                None => return self.foreign(nr),
+            },
+            libc::SYS_fcntl => match self.sock_idx(fd) {
+                Some(i) => match a[1] as i32 {
+                    libc::F_GETFL => (libc::O_RDWR | if self.nb[i] { libc::O_NONBLOCK } else { 0 }) as i64,
+                    libc::F_SETFL => {
+                        self.nb[i] = a[2] & libc::O_NONBLOCK as u64 != 0;
+                        0
+                    }
+                    libc::F_GETFD | libc::F_SETFD => 0,
+                    _ => neg(libc::EINVAL),
+                },
                 None => return self.foreign(nr),
             },
             libc::SYS_getsockname => match self.sock_idx(fd) {
@@ -545,8 +644,12 @@ impl World {
                         let c = self.choose(2, 0b10);
                         if c == 1 {
                             self.socks[i] = Sock::Fresh { eagain_given: true };
-                            self.eagains += 1;
-                            return neg(libc::EAGAIN);
+                            if self.nb[i] {
+                                self.eagains += 1;
+                                return neg(libc::EAGAIN);
+                            }
+                            // blocking mode: the caller sleeps until there is room in the backlog
+                            self.kernel_sleeps += 1;
                         }
                     }
                     let id = self.new_conn(CState::Established);
@@ -561,7 +664,33 @@ impl World {
                     let st = if self.peer.listening || self.peer.blackhole { CState::SynSent } else { CState::Refused };
                     let id = self.new_conn(st);
                     self.socks[i] = Sock::Connecting(id);
-                    neg(libc::EINPROGRESS)
+                    if self.nb[i] {
+                        return neg(libc::EINPROGRESS);
+                    }
+                    // blocking mode: connect sleeps until the handshake is answered
+                    let mut slept = false;
+                    loop {
+                        match self.conns[id].state {
+                            CState::Established => {
+                                self.socks[i] = Sock::Stream(id);
+                                return 0;
+                            }
+                            CState::Refused => {
+                                self.refused += 1;
+                                self.socks[i] = Sock::Fresh { eagain_given: true };
+                                return neg(libc::ECONNREFUSED);
+                            }
+                            CState::SynSent => {
+                                if !slept {
+                                    slept = true;
+                                    self.kernel_sleeps += 1;
+                                }
+                                if !self.kernel_wait(libc::SYS_connect) {
+                                    return neg(libc::EBADF);
+                                }
+                            }
+                        }
+                    }
                 }
                 Sock::Connecting(ci) => match self.conns[ci].state {
                     CState::SynSent => {
@@ -585,9 +714,23 @@ impl World {
     }
 
     fn accept4(&mut self, i: usize, a: &[u64; 6]) -> i64 {
-        let popped = match &mut self.socks[i] {
-            Sock::Listener { pending } => pending.pop_front(),
-            _ => return neg(libc::EINVAL),
+        let mut slept = false;
+        let popped = loop {
+            let popped = match &mut self.socks[i] {
+                Sock::Listener { pending } => pending.pop_front(),
+                _ => return neg(libc::EINVAL),
+            };
+            if popped.is_some() || self.nb[i] {
+                break popped;
+            }
+            // blocking-mode listener: accept sleeps until a connection arrives
+            if !slept {
+                slept = true;
+                self.kernel_sleeps += 1;
+            }
+            if !self.kernel_wait(libc::SYS_accept4) {
+                return neg(libc::EBADF);
+            }
         };
         match popped {
             None => {
@@ -595,7 +738,8 @@ impl World {
                 neg(libc::EAGAIN)
             }
             Some(ci) => {
-                let fd = self.new_sock(Sock::Stream(ci));
+                let nonblock = a[3] & libc::SOCK_NONBLOCK as u64 != 0;
+                let fd = self.new_sock(Sock::Stream(ci), nonblock);
                 self.accept_fds += 1;
                 unsafe {
                     let sa = a[1] as *mut u8;
@@ -634,14 +778,28 @@ impl World {
         if len == 0 {
             return 0;
         }
-        let avail = self.conns[ci].p2a.len();
-        if avail == 0 {
+        let mut slept = false;
+        let avail = loop {
+            let avail = self.conns[ci].p2a.len();
+            if avail > 0 {
+                break avail;
+            }
             if self.conns[ci].peer_closed {
                 return 0;
             }
-            self.eagains += 1;
-            return neg(libc::EAGAIN);
-        }
+            if self.nb[i] {
+                self.eagains += 1;
+                return neg(libc::EAGAIN);
+            }
+            // blocking mode: read sleeps until data or EOF
+            if !slept {
+                slept = true;
+                self.kernel_sleeps += 1;
+            }
+            if !self.kernel_wait(libc::SYS_read) {
+                return neg(libc::EBADF);
+            }
+        };
         let max = len.min(avail);
         // default: everything that is there; alternatives: any smaller count >= 1
         let mut n = max;
@@ -667,6 +825,30 @@ impl World {
         };
         if len == 0 {
             return 0;
+        }
+        if !self.nb[i] {
+            // blocking mode: write sleeps until every byte is queued
+            let mut done = 0usize;
+            let mut slept = false;
+            loop {
+                let free = self.cap - self.conns[ci].a2p.len();
+                let k = free.min(len - done);
+                for j in 0..k {
+                    let b = unsafe { *buf.add(done + j) };
+                    self.conns[ci].a2p.push_back(b);
+                }
+                done += k;
+                if done == len {
+                    return len as i64;
+                }
+                if !slept {
+                    slept = true;
+                    self.kernel_sleeps += 1;
+                }
+                if !self.kernel_wait(libc::SYS_write) {
+                    return neg(libc::EBADF);
+                }
+            }
         }
         let free = self.cap - self.conns[ci].a2p.len();
         if free == 0 {
@@ -739,8 +921,7 @@ impl World {
                         return self.eintr(ts, start, timeout);
                     }
                 }
-                self.deadlock = true;
-                self.ev.push(Ev::Note("application waits for readiness that can never come"));
+                self.get_stuck(false, libc::SYS_ppoll);
                 return neg(libc::EBADF);
             }
             // options: every possible peer action (free), then time-out (one deviation), then EINTR (one deviation)
